@@ -939,14 +939,7 @@ class X:
         for s_ in stmts:
             if loader.is_dropped_stmt(s_):
                 continue
-            if self.c.asserts and self.depth == 0:
-                key = loader.norm(s_)[:60]
-                for akey, clauses in self.c.asserts.items():
-                    if key.startswith(akey):
-                        self.matched_loops.add("assert:" + akey)
-                        for c in cur:
-                            for cl in clauses:
-                                self._oblige_clause("assert", cl, c, chain, NONE, c.entry, "before " + akey, s_)
+            self._check_asserts(s_, cur, chain)
             nxt = []
             for c in cur:
                 for s2, oc in self.stmt(s_, c, chain):
@@ -962,6 +955,16 @@ class X:
         return [(c, ("fall",)) for c in cur] + done
 
     MERGE_THRESHOLD = 6
+
+    def _check_asserts(self, s_, cur, chain):
+        if self.c.asserts and self.depth == 0:
+            key = loader.norm(s_)[:60]
+            for akey, clauses in self.c.asserts.items():
+                if key.startswith(akey):
+                    self.matched_loops.add("assert:" + akey)
+                    for c in cur:
+                        for cl in clauses:
+                            self._oblige_clause("assert", cl, c, chain, NONE, c.entry, "before " + akey, s_)
 
     def dedupe(self, states):
         """frame mode: sound over-approximating join of states whose tracked
@@ -1345,6 +1348,7 @@ class X:
         for s_ in stmts:
             if loader.is_dropped_stmt(s_):
                 continue
+            self._check_asserts(s_, cur, chain)
             nxt = []
             for c in cur:
                 snapshots.append(c.fork())
